@@ -4,7 +4,7 @@ differential oracle against Kind(name, **P, limits=L) through params(limits=True
 every key given every wrong type -> ValueError (all kinds but LinReg)."""
 import itertools, copy, os, tempfile, shutil
 import toml
-from ..common import Run, Res, seed, quiet_call, VERIF
+from ..common import workdir as _wd, cleanup_workdir as _cw, Run, Res, seed, quiet_call, VERIF
 from ..sysmodel import KINDS, LOADS, observe
 from sysloss.system import System
 from sysloss.components import Source, ILoad, PLoad
@@ -37,9 +37,7 @@ def allowed_types(kind, key):
 
 
 def workdir():
-    d = os.path.join(VERIF, ".work", "C13-%d" % os.getpid())
-    os.makedirs(d, exist_ok=True)
-    return d
+    return _wd()
 
 
 def write_toml(section, params, limits):
@@ -186,7 +184,7 @@ def main(tier):
     try:
         run.map(check_case, gen_cases(tier), chunk=8, family="toml")
     finally:
-        shutil.rmtree(os.path.join(VERIF, ".work"), ignore_errors=True)
+        _cw()
     for c in ("equiv", "KeyError", "ValueError"):
         run.require(c in run.classes, "class %s never observed" % c)
     return run.finish(
